@@ -100,7 +100,8 @@ def runCase : CaseFn := fun c => Id.run do
   let crashCase := c.header == ["store", "crashes"] || c.header == ["store", "init"]
   let pid := if crashCase then "C08" else "C07"
   let mut out : Array String := #[]
-  let mut d : Durable := Neutrino.Store.init
+  -- "store init" cases begin in an empty data directory (the very first start is part of the case)
+  let mut d : Durable := if c.header == ["store", "init"] then Neutrino.Store.empty else Neutrino.Store.init
   let mut log : Log := Log.init
   let mut inj : Inj := .none
   let mut diverged := false
@@ -125,17 +126,6 @@ def runCase : CaseFn := fun c => Id.run do
     if ws == ["nop"] then
       inj := .none
       afterMode := false
-      continue
-    if ws.head? == some "initcrash" then
-      -- first start killed before its n-th index transaction
-      d := initCrash (nat! (ws.getD 1 "0"))
-      if obs == "ok" then d := initCrash 5
-      log := Log.init
-      continue
-    if ws.head? == some "initagain" then
-      -- the restart was killed as well: still one of the `FirstInit` states, all of which reopen to `init`
-      -- (C08_first_init); a completed restart has initialised both stores
-      if obs == "ok" then d := initCrash 5
       continue
     if ws == ["dump"] then
       match parseDump obs with
@@ -179,7 +169,9 @@ def runCase : CaseFn := fun c => Id.run do
           diverged := true
       -- property oracle on the implementation's own report
       if obs == "crashed" then
-        pendingCrash := some (log, op)
+        -- a restart that is killed as well keeps the obligation of the operation that was interrupted first
+        if !(op == .reopen && pendingCrash.isSome) then
+          pendingCrash := some (log, op)
       else if op == .reopen then
         if obs != "ok" then
           let shape := if c.header == ["store", "init"] then "shape=crash-during-first-init " else ""
